@@ -247,10 +247,9 @@ func (k Keeper) LiquidateBorrows(ctx sdk.Context, offsetCounterId uint64) error 
 	}
 	newBorrowIDs := borrowIDs[start:end]
 	for l := range newBorrowIDs {
-		err := k.LiquidateIndividualBorrow(ctx, newBorrowIDs[l], "", false)
-		if err != nil {
-			return err
-		}
+		_ = utils.ApplyFuncIfNoError(ctx, func(ctx sdk.Context) error {
+			return k.LiquidateIndividualBorrow(ctx, newBorrowIDs[l], "", false)
+		})
 	}
 	liquidationOffsetHolder.CurrentOffset = uint64(end)
 	k.SetLiquidationOffsetHolder(ctx, types.VaultLiquidationsOffsetPrefix, liquidationOffsetHolder)
@@ -454,10 +453,10 @@ func (k Keeper) LiquidateForSurplusAndDebt(ctx sdk.Context) error {
 	for _, data := range auctionMapData {
 		killSwitchParams, _ := k.esm.GetKillSwitchData(ctx, data.AppId)
 		if !data.IsAuctionActive && !killSwitchParams.BreakerEnable {
-			err := k.CheckStatsForSurplusAndDebt(ctx, data.AppId, data.AssetId)
-			if err != nil {
-				return err
-			}
+			appID, assetID := data.AppId, data.AssetId
+			_ = utils.ApplyFuncIfNoError(ctx, func(ctx sdk.Context) error {
+				return k.CheckStatsForSurplusAndDebt(ctx, appID, assetID)
+			})
 		}
 
 	}
